@@ -295,44 +295,69 @@ def wfPep (v : PepVersion) : Bool :=
 /-- `reversed(dropwhile(lambda x: x == 0, reversed(release)))` -/
 def stripTrailingZeros (r : List Nat) : List Nat := (r.reverse.dropWhile (· == 0)).reverse
 
+/-! `_cmpkey`: the four sentinel rules, then the key tuple -/
+
+/-- `_pre`: a dev release without pre and post sorts before every pre-release
+    (`NegativeInfinity`); otherwise a version without a pre-release sorts after those with one -/
+def preKeyOf (v : PepVersion) : Ext (Str × Nat) :=
+  match v.pre, v.post, v.dev with
+  | none, none, some _ => .negInf
+  | none, _, _ => .inf
+  | some p, _, _ => .val p
+
+/-- `_post`: no post segment sorts before any -/
+def postKeyOf (v : PepVersion) : Ext Nat :=
+  match v.post with
+  | none => .negInf
+  | some n => .val n
+
+/-- `_dev`: no dev segment sorts after any -/
+def devKeyOf (v : PepVersion) : Ext Nat :=
+  match v.dev with
+  | none => .inf
+  | some n => .val n
+
+/-- `_local`: no local segment sorts before any -/
+def locKeyOf (v : PepVersion) : Ext (List LocalSeg) :=
+  match v.loc with
+  | none => .negInf
+  | some l => .val l
+
 /-- `_cmpkey` -/
 def pepKey (v : PepVersion) : Key :=
-  let pre : Ext (Str × Nat) :=
-    match v.pre, v.post, v.dev with
-    | none, none, some _ => .negInf
-    | none, _, _ => .inf
-    | some p, _, _ => .val p
-  let post : Ext Nat := match v.post with
-    | none => .negInf
-    | some n => .val n
-  let dev : Ext Nat := match v.dev with
-    | none => .inf
-    | some n => .val n
-  let loc : Ext (List LocalSeg) := match v.loc with
-    | none => .negInf
-    | some l => .val l
-  .pep v.epoch (stripTrailingZeros v.release) pre post dev loc
+  .pep v.epoch (stripTrailingZeros v.release) (preKeyOf v) (postKeyOf v) (devKeyOf v) (locKeyOf v)
 
 def localSegStr : LocalSeg → Str
   | .num n => natToStr n
   | .str s => s
 
+/-- `f"{epoch}!"` when the epoch is not 0 -/
+def epochStr (e : Nat) : Str := if e != 0 then natToStr e ++ ['!'] else []
+
+/-- `"".join(str(x) for x in self.pre)` -/
+def preStr : Option (Str × Nat) → Str
+  | some (l, n) => l ++ natToStr n
+  | none => []
+
+/-- `f".post{self.post}"` -/
+def postStr : Option Nat → Str
+  | some n => ".post".toList ++ natToStr n
+  | none => []
+
+/-- `f".dev{self.dev}"` -/
+def devStr : Option Nat → Str
+  | some n => ".dev".toList ++ natToStr n
+  | none => []
+
+/-- `f"+{self.local}"` with `local = ".".join(str(x) for x in self._version.local)` -/
+def locStr : Option (List LocalSeg) → Str
+  | some l => '+' :: join ['.'] (l.map localSegStr)
+  | none => []
+
 /-- `Version.__str__` -/
 def pepStr (v : PepVersion) : Str :=
-  (if v.epoch != 0 then natToStr v.epoch ++ ['!'] else []) ++
-  join ['.'] (v.release.map natToStr) ++
-  (match v.pre with
-   | some (l, n) => l ++ natToStr n
-   | none => []) ++
-  (match v.post with
-   | some n => ".post".toList ++ natToStr n
-   | none => []) ++
-  (match v.dev with
-   | some n => ".dev".toList ++ natToStr n
-   | none => []) ++
-  (match v.loc with
-   | some l => '+' :: join ['.'] (l.map localSegStr)
-   | none => [])
+  epochStr v.epoch ++ (join ['.'] (v.release.map natToStr) ++
+    (preStr v.pre ++ (postStr v.post ++ (devStr v.dev ++ locStr v.loc))))
 
 /-! ## 4. `LegacyVersion` -/
 
